@@ -334,4 +334,92 @@ def HistEl.fillAll (emptyCtx : κ) (one : β) (e : HistEl α β κ) :
 
 end Elem
 
+/-! ## extension: `init_bins(..., deepcopy=True)`, `Histogram` with `bins` / `make_bins` / `initial_value`, `reset` -/
+
+/-- `init_bins(edges, value, deepcopy)` for a list of axes with the `deepcopy` flag
+(hist_functions.py:422-435): `[copy.deepcopy(value) for _ in range(n)]` against `[value] * n`, and one
+recursive call per row.  As values the two are equal (`initBinsD_eq`); which cells are the same
+Python object is outside the value model. -/
+def initBinsAxesD (deepcopy : Bool) (v : β) : List (List α) → Except Err (NArr β)
+  | [] => .error .indexError                 -- `edges[0]`
+  | [arr] =>
+    if deepcopy then .ok (.node ((List.range (arr.length - 1)).map (fun _ => .leaf v)))
+    else .ok (.node (List.replicate (arr.length - 1) (.leaf v)))
+  | arr :: rest => do
+    let sub ← initBinsAxesD deepcopy v rest
+    pure (.node ((List.range (arr.length - 1)).map (fun _ => sub)))
+
+/-- `init_bins(edges, value, deepcopy)` (hist_functions.py:394-435) -/
+def initBinsD (deepcopy : Bool) (v : β) : Edges α → Except Err (NArr β)
+  | .flat arr =>
+    if arr.length = 0 then .error .indexError   -- `edges[0]`
+    else if deepcopy then .ok (.node ((List.range (arr.length - 1)).map (fun _ => .leaf v)))
+    else .ok (.node (List.replicate (arr.length - 1) (.leaf v)))
+  | .nested axes => initBinsAxesD deepcopy v axes
+
+/-- what `Histogram.__init__` stores for `reset()` (histogram.py:423-431): a deep copy of the given
+bins, the bins `make_bins()` returns (a function without arguments that builds new bins: a
+constant in the value model), the initial value and the edges -/
+structure ElCfg (α β : Type) where
+  edges : Edges α
+  initialBins : Option (NArr β)
+  makeBins : Option (NArr β)
+  initialValue : β
+
+/-- the bins `Histogram.reset()` (and `__init__`) hands to `histogram(...)`: `make_bins()` if there
+is one, else (a deep copy of) the initial bins, else `None` (histogram.py:461-466, 427-428) -/
+def ElCfg.startBins (c : ElCfg α β) : Option (NArr β) :=
+  match c.makeBins with
+  | some m => some m
+  | none => c.initialBins
+
+/-- `lena.structures.Histogram` with its construction arguments -/
+structure HistEl2 (α β κ : Type) where
+  cfg : ElCfg α β
+  hist : Hist α β
+  curContext : κ
+
+/-- an operation on the element: `fill(value)` with the guess functions of its searches, or `reset()` -/
+inductive ElOp (α κ : Type) where
+  | fill (g : Nat → Nat → Nat → Int) (c : Coord α) (ctx : Option κ)
+  | reset
+
+section Elem2
+variable [LT α] [LE α] [DecidableLT α] [DecidableLE α] [DecidableEq α] [Add β] [Zero β]
+
+/-- `Histogram.__init__(edges, bins, make_bins, initial_value)` (histogram.py:405-435): both `bins`
+and `make_bins` → `LenaTypeError`; `make_bins()` replaces `bins`; then `histogram(edges, bins,
+initial_value)` -/
+def HistEl2.new (emptyCtx : κ) (edges : Edges α) (bins makeBins : Option (NArr β)) (init : β) :
+    Except Err (HistEl2 α β κ) :=
+  if makeBins.isSome && bins.isSome then .error .lenaTypeError
+  else do
+    let cfg : ElCfg α β := { edges := edges, initialBins := bins, makeBins := makeBins, initialValue := init }
+    let h ← mkHist edges cfg.startBins init
+    pure { cfg := cfg, hist := h, curContext := emptyCtx }
+
+/-- `Histogram.fill(value)` (histogram.py:437-446) -/
+def HistEl2.fill (emptyCtx : κ) (one : β) (guess : Nat → Nat → Nat → Int) (e : HistEl2 α β κ)
+    (data : Coord α) (ctx : Option κ) : Except Err (HistEl2 α β κ) := do
+  let h ← C06.fill guess e.hist data one
+  pure { e with hist := h, curContext := ctx.getD emptyCtx }
+
+/-- `Histogram.reset()` (histogram.py:454-471): bins from `make_bins()`, else a deep copy of the
+initial bins, else `None`; a new `histogram(self._edges, bins, self._initial_value)`; `{}` context -/
+def HistEl2.reset (emptyCtx : κ) (e : HistEl2 α β κ) : Except Err (HistEl2 α β κ) := do
+  let h ← mkHist e.cfg.edges e.cfg.startBins e.cfg.initialValue
+  pure { e with hist := h, curContext := emptyCtx }
+
+/-- a history of fills and resets of one element object; the first exception ends it -/
+def HistEl2.run (emptyCtx : κ) (one : β) : HistEl2 α β κ → List (ElOp α κ) → Except Err (HistEl2 α β κ)
+  | e, [] => .ok e
+  | e, .fill g c ctx :: rest => do
+    let e' ← HistEl2.fill emptyCtx one g e c ctx
+    HistEl2.run emptyCtx one e' rest
+  | e, .reset :: rest => do
+    let e' ← HistEl2.reset emptyCtx e
+    HistEl2.run emptyCtx one e' rest
+
+end Elem2
+
 end Lena.C06
